@@ -60,6 +60,16 @@ type Config struct {
 	SymIdxCap    int // max candidate positions for a symbolic-offset access
 	Deadline     time.Time
 	Params       map[string]int
+	Spec         func() SpecPath // reference semantics behind verif_spec_* (translation validation)
+}
+
+// SpecPath is the per-path state of a reference interpreter the harness talks to through
+// verif_spec_reset/set/get/call. Values are 64-bit terms (booleans 0/1).
+type SpecPath interface {
+	Reset(structName string) error
+	Set(field string, idx uint64, v *sym.Term) error
+	Get(field string, idx uint64) (*sym.Term, error)
+	Call(fn string, args []*sym.Term, obligation func(c *sym.Term, label string)) (*sym.Term, error)
 }
 
 func DefaultConfig() Config {
@@ -144,6 +154,7 @@ type Exec struct {
 	checks  []checkRec
 	reached []string
 	uninitCtr int
+	spec    SpecPath
 	fnSeen  map[string]bool
 	bases   map[*Obj]*sym.Term
 	curBlock string
